@@ -108,7 +108,17 @@ class PostgresImpl(SqlImpl):
             return sqa.cast(val, sqa.BigInteger)
         elif fn.op in (ops.sum, ops.cum_sum):
             # postgres sometimes switches types for `sum`
-            return sqa.cast(val, args[0].type)
+            arg_type = args[0].type
+            if isinstance(arg_type, sqa.types.NullType):
+                # the argument is an expression without SQLAlchemy type (e.g. GREATEST):
+                # fall back to the static type of the result
+                dtype = types.without_const(fn.dtype())
+                if type(dtype) is Int:
+                    dtype = Int64()
+                elif type(dtype) is Float:
+                    return sqa.cast(val, sqa.Double)
+                arg_type = cls.sqa_type(dtype)
+            return sqa.cast(val, arg_type)
         return val
 
     @classmethod
